@@ -92,6 +92,8 @@ pub enum TOp {
     /// opposite order of (just above) the position's current value: the reversal closes it and re-opens
     /// nothing, which leaves a stored record of size zero
     FlatReverse,
+    /// deposit that brings the position's equity (margin - funding + spot PnL) to exactly -1 (0), 0 (1) or +1 (2)
+    DepositToZero(u64),
     /// order on the side opposite to a stored size-zero record's direction, with a base limit on the wrong
     /// side of the quoted amount (0) or exactly at it (1)
     AfterFlat(u64),
@@ -385,7 +387,7 @@ fn gen_open(w: &World, r: &mut Rng, vis: &[VInfo], ps: &[PosInfo]) -> Draft {
         _ => d + r.below128(19 * d),
     };
     if lev > maxlev && r.chance(92, 100) {
-        lev = if r.chance(1, 2) { maxlev } else { (d + r.below128(maxlev - d + 1)).min(maxlev) };
+        lev = if r.chance(1, 2) { maxlev } else { (d + r.below128(maxlev.saturating_sub(d) + 1)).min(maxlev) };
     }
     let pick_margin = |r: &mut Rng| -> u128 {
         let base = *r.pick(&[1u128, 2, 5, 10, 25, 60, 100, 300]) * d;
@@ -575,6 +577,12 @@ fn start_campaign(w: &World, r: &mut Rng, g: &mut GenCtx, vis: &[VInfo], ps: &[P
     };
     g.plan.push_back(Plan::Push { vi, victim, target_bp: target, steps_left: 6 });
     g.plan.push_back(Plan::AlignOracle { vi });
+    if target < 0 && r.chance(1, 2) {
+        // instead of being liquidated the victim tops the margin up to an equity of exactly -1 / 0 / +1 and closes
+        let k = *r.pick(&[0u64, 1, 1, 2]);
+        g.plan.push_back(Plan::TraderOp { vi, who: Who::Id(victim), op: TOp::DepositToZero(k), block: Blk::Next });
+        g.plan.push_back(Plan::TraderOp { vi, who: Who::Id(victim), op: TOp::Close, block: Blk::Same });
+    }
     g.plan.push_back(Plan::Liq { vi, victim, first: true });
     true
 }
@@ -789,6 +797,28 @@ fn realize(w: &World, r: &mut Rng, g: &mut GenCtx, plan: &Plan, vis: &[VInfo], p
                     draft(trader, Msg::Withdraw { v: v.id, amt: (fc / 2).max(1) })
                 }
                 (TOp::Close, _) => draft(trader, Msg::Close { v: v.id, lim: 0 }),
+                (TOp::DepositToZero(k), Some(p)) if p.size != 0 => {
+                    let val = value(p) as i128;
+                    let pnl = if p.dir == 0 { val - p.notional as i128 } else { p.notional as i128 - val };
+                    let mf = w
+                        .q::<margined_perp::margined_engine::Position, _>(
+                            &w.engine,
+                            &margined_perp::margined_engine::QueryMsg::PositionWithFundingPayment { vamm: p.vaddr.clone(), trader: p.taddr.clone() },
+                        )
+                        .map(|x| x.margin.u128())
+                        .unwrap_or(p.margin) as i128;
+                    let equity = mf + pnl;
+                    let amt = -equity + (*k as i128 - 1);
+                    if amt <= 0 {
+                        return None;
+                    }
+                    let amt = amt as u128;
+                    let mut dr = draft(trader, Msg::Deposit { v: v.id, amt });
+                    if w.cfg.native {
+                        dr.funds = amt;
+                    }
+                    dr
+                }
                 (TOp::FlatReverse, Some(p)) if p.size != 0 => open(1 - p.dir, value(p) + lev / d + 1),
                 (TOp::AfterFlat(k), Some(p)) if p.size == 0 => {
                     let side = 1 - p.dir;
@@ -1624,6 +1654,34 @@ fn gen_repair(w: &World, r: &mut Rng, vis: &[VInfo]) -> Option<Draft> {
         }
     }
     None
+}
+
+/// `gen_step` behind a panic guard: the generator computes with the observed state and may meet values
+/// that a broken implementation produced (a ratio above 1, a negative balance …); instead of aborting
+/// the run it then falls back to a plain funding call, so that the step is still executed and judged
+pub fn gen_step_safe(w: &World, r: &mut Rng, g: &mut GenCtx, k: u64, stats: &mut Stats) -> Tx {
+    let seed = r.0;
+    let res = std::panic::catch_unwind(std::panic::AssertUnwindSafe(|| gen_step(w, r, g, k, stats)));
+    match res {
+        Ok(tx) => tx,
+        Err(_) => {
+            stats.count("generator", "panic_fallback");
+            g.plan.clear();
+            g.last_plan = None;
+            r.0 = seed.wrapping_mul(6364136223846793005).wrapping_add(1442695040888963407);
+            let b = w.app.block_info();
+            Tx {
+                k,
+                snd: 101,
+                funds: 0,
+                extra: false,
+                height: b.height + 1,
+                time: b.time.seconds() + 6,
+                msg: Msg::PayFunding { v: VAMM0 },
+                fault: None,
+            }
+        }
+    }
 }
 
 pub fn gen_step(w: &World, r: &mut Rng, g: &mut GenCtx, k: u64, stats: &mut Stats) -> Tx {
